@@ -7,6 +7,8 @@
 #include "raptor/krylov/bicgstab.hpp"
 #include "raptor/krylov/par_cg.hpp"
 #include "raptor/krylov/par_bicgstab.hpp"
+#include "raptor/ruge_stuben/par_ruge_stuben_solver.hpp"
+#include "raptor/aggregation/par_smoothed_aggregation_solver.hpp"
 using namespace raptor;
 static vh::Env E;
 static std::vector<std::vector<long long>> G(const std::vector<long long>& v) { return vh::gather_ll(v); }
@@ -85,6 +87,43 @@ int main(int argc, char** argv)
             std::vector<long long> v4; for (double v : t.v) v4.push_back((long long)llround(4 * v)); c.vec(v4);
             c.dvec(x0).dvec(b).dvec(res).vec(xfin).i((long long)iterates.size()); for (auto& v : iterates) c.vec(v);
             c.write(E.out);
+        }
+        // preconditioned CG (distributed only): history in the solver's scaling (r_k, M r_k)/(b, M b) against the same
+        // quantity recomputed from the true residual of the k-th iterate (x_k recovered with max_iter = k; M = one cycle
+        // of the hierarchy, applied through the library's own cycle(), which C09 ties to its model)
+        if (!seq && it % 3 == 1) {
+            int n2 = std::max(np, g.range(4, 12 + 2 * it));
+            vh::Trip t2 = gen_sys(g, n2, true);
+            vh::Rng gl(E.seed * 41 + it); int style = gl.coin() ? 1 : 2 + gl.below(2); std::vector<int> R = vh::compose(gl, n2, np, style);
+            vh::Layout L; L.kind = 1; L.rows = R; L.cols = R; L.first_row.assign(np, 0); for (int p = 1; p < np; p++) L.first_row[p] = L.first_row[p - 1] + R[p - 1]; L.first_col = L.first_row;
+            ParCOOMatrix* Ac = vh::assemble_coo(t2, L, rank); ParCSRMatrix* A = Ac->to_ParCSR();
+            int f2 = A->partition->first_local_row, lr = A->local_num_rows;
+            int solver = g.below(2); int maxit = g.coin(3, 4) ? g.range(9, 14) : g.range(1, 6); double tol2 = g.coin(3, 4) ? 1e-30 : 1e-4;
+            snprintf(ctx, 128, "par/pcg/solver%d/n%d/maxit%d/style%d", solver, n2, maxit, style); E.about(ctx);
+            silence(true);
+            ParMultilevel* ml = solver == 0 ? (ParMultilevel*)new ParRugeStubenSolver(0.25, CLJP, ModClassical, Classical, SOR)
+                                           : (ParMultilevel*)new ParSmoothedAggregationSolver(0.0, MIS, JacobiProlongation, Symmetric, SOR, 1, 4.0 / 3);
+            ml->max_coarse = 3; ml->setup(A);
+            std::vector<double> xs2(n2), x02(n2), b2(n2); for (auto& v : xs2) v = g.range(-3, 3); for (auto& v : x02) v = (g.unit() - 0.5) * 2;
+            for (auto& v : b2) v = (g.unit() - 0.5) * 4;
+            ParVector x(n2, lr), bb(n2, lr), r(n2, lr), z(n2, lr);
+            vh::fill_vec(bb, b2, f2);
+            z.set_const_value(0.0); ml->cycle(z, bb); double b_inner = bb.inner_product(z);
+            std::vector<double> full; vh::fill_vec(x, x02, f2); PCG(A, ml, x, bb, full, tol2, maxit);
+            int iters = (int)full.size() - 1;
+            std::vector<double> truev; std::vector<long long> prefix_ok;
+            for (int k = 0; k <= iters; k++) {
+                std::vector<double> rk; vh::fill_vec(x, x02, f2);
+                if (k > 0) PCG(A, ml, x, bb, rk, tol2, k);
+                A->residual(x, bb, r); z.set_const_value(0.0); ml->cycle(z, r);
+                truev.push_back(r.inner_product(z));
+                long long okp = 1; if (k > 0) { if ((int)rk.size() != k + 1) okp = 0; else for (int j = 0; j <= k; j++) if (vh::dbits(rk[j]) != vh::dbits(full[j])) okp = 0; }
+                prefix_ok.push_back(okp);
+            }
+            silence(false);
+            bool want3 = E.want();
+            if (rank == 0 && want3) { vh::Case c("C17", "pcg"); c.i(np).i(solver).i(n2).d(tol2).i(maxit).d(b_inner).dvec(full).dvec(truev).vec(prefix_ok); c.write(E.out); }
+            delete ml; delete A; delete Ac;
         }
         // inner product and norm, with a non-finite entry in a random position on a random rank
         if (it % 3 == 0) {
